@@ -22,7 +22,7 @@ from . import _core_common as cc
 PROP = 'C14'
 ENGINE = 'timesim'
 HASH_CLASSES = 1
-RUNS = {'quick': 800, 'thorough': 20000}
+RUNS = {'quick': 1600, 'thorough': 20000}
 RUN_TIMEOUT = 300
 DETERMINISM_RUNS = 8
 RULE = ("Each run = table of 1-6 distinct time steps (HOM exact-solution "
